@@ -213,7 +213,7 @@ func (fs *FS) OpenFile(name string, flag int, perm hackpadfs.FileMode) (afFile h
 		// require parent directory
 		err := errs[1]
 		if err != nil {
-			return nil, fs.wrapperErr("open", name, err)
+			return nil, fs.wrapperErr("open", name, fs.notExistOrNotDir(path.Dir(name), err))
 		}
 		if !files[1].info().IsDir() {
 			return nil, fs.wrapperErr("open", name, hackpadfs.ErrNotDir)
@@ -223,7 +223,7 @@ func (fs *FS) OpenFile(name string, flag int, perm hackpadfs.FileMode) (afFile h
 			return nil, fs.wrapperErr("open", name, err)
 		}
 	default:
-		return nil, fs.wrapperErr("open", name, err)
+		return nil, fs.wrapperErr("open", name, fs.notExistOrNotDir(name, err))
 	}
 
 	var file hackpadfs.File = storeFile
